@@ -269,6 +269,15 @@ def _tree_to_objects(
     # Find all the changed blobs
     for change in tree.iter_changes(base_tree):
         if change.name[1] in BANNED_FILENAMES:
+            # The entry is not exported under this name, but the directory
+            # it left has to be rebuilt without it.
+            if change.path[0] is not None and change.path[0] != change.path[1]:
+                dirty_dirs.add(osutils.dirname(change.path[0]))
+                new_dir = InterTree.get(base_tree, tree).find_target_path(
+                    osutils.dirname(change.path[0])
+                )
+                if new_dir is not None:
+                    dirty_dirs.add(new_dir)
             continue
         if change.kind[1] == "file":
             sha1 = tree.get_file_sha1(change.path[1])
@@ -316,7 +325,9 @@ def _tree_to_objects(
                     change.path[1], change.kind[1], target, other_parent_trees
                 )
             except KeyError:
-                if change.changed_content:
+                # A symlink that was called ".git" was never exported: its
+                # blob has to be sent when it gets a name git can hold.
+                if change.changed_content or change.name[0] in BANNED_FILENAMES:
                     yield (
                         change.path[1],
                         blob,
